@@ -19,6 +19,9 @@ package ntlm
 //@   ensures[C14] proof: r.Authenticated ==> old(c.session) != nil && #pamOK && #pamSession == c.session && #pamMsg == am && #uiSession == c.session
 //@   ensures[C14] user: r.Authenticated ==> r.Username == #uiUser && #uiPass == dbPassword(c, #uiUser) && #uiPass != ""
 //@   ensures[C14] never: old(c.session) == nil ==> !r.Authenticated && result != nil
+// go-ntlm may panic on the message (odd-length user name, malformed response): the panic escapes
+// to the caller, which must recover ((*ntlmContext).Authenticate does)
+//@   maypanic[C10]
 //@   nopanic[C10]
 
 //@ func (*ntlmContext).negotiate
